@@ -73,7 +73,7 @@ p["fault_kinds_fired"]["S-miri-seeded-preemption-plain-threads"] = int(mp)
 p["fault_kinds_fired"]["S-miri-seeded-preemption-rayon-pool"] = int(mr)
 p["probes"]["build_guard_compiled"] = int(guard)
 p["violations"] = int(viol)
-p["trusted_base"] = ["rustc: Send/Sync/RefUnwindSafe bounds of guard/src/lib.rs for every T", "rustc -F unsafe_code on indextree (std, macros, par_iter, deser)"]
+p["trusted_base"] = ["rustc: Send/Sync/RefUnwindSafe bounds of guard/src/lib.rs for every T", "rustc nightly: Freeze bound (no UnsafeCell directly inside Arena/Node/NodeId/iterators) for every T: Freeze", "rustc -F unsafe_code on indextree (std, macros, par_iter, deser)"]
 json.dump(p, open(part, "w"), indent=1)
 EOF
 }
@@ -86,6 +86,14 @@ if ! cargo build --offline -q --release --manifest-path "$GUARD" --target-dir "$
 import json, sys
 json.dump({"engine": "threadsim-guard", "property": "C18", "detail": open(sys.argv[1]).read()[-4000:]}, open(sys.argv[2], "w"), indent=1)
 EOF
+  grep -E "^error" -A 8 "$GLOG" | head -30
+  echo "VIOLATION property=C18 replay=$RP"
+  emit_part 1 0 0 0; exit 1
+fi
+# nightly leg of the guard: Freeze (no interior mutability directly inside the types)
+if ! cargo +nightly build --offline -q --release --features nightly --manifest-path "$GUARD" --target-dir "$TDIR-guard-nightly" >"$GLOG" 2>&1; then
+  RP="$RPD/C18-guard.json"
+  python3 -c 'import json,sys; json.dump({"engine": "threadsim-guard", "property": "C18", "detail": open(sys.argv[1]).read()[-4000:]}, open(sys.argv[2], "w"), indent=1)' "$GLOG" "$RP"
   grep -E "^error" -A 8 "$GLOG" | head -30
   echo "VIOLATION property=C18 replay=$RP"
   emit_part 1 0 0 0; exit 1
@@ -112,34 +120,25 @@ RC=$?
 if [ "$RC" != 0 ]; then emit_part $([ "$RC" = 1 ] && echo 1 || echo 0) 0 0 1; exit "$RC"; fi
 
 # ---- 3. Miri seeds (scenario seeds derived from VERIF_SEED)
-if [ "$TIER" = thorough ]; then NP=8; RANGE=0..8; NR=4; else NP=2; RANGE=0..3; NR=1; fi
-W=$(( ${RANGE#*..} - ${RANGE%..*} ))
+# modes: plain = seeded random scenario on std threads; hammer = several top-level chains, many
+# concurrent reads on different start nodes (contention on any reader-written state);
+# rayon = par_iter and readers inside a rayon pool
+if [ "$TIER" = thorough ]; then PLAN="plain:6:0..8 hammer:10:0..16 rayon:4:0..8"; else PLAN="plain:1:0..3 hammer:2:0..8 rayon:1:0..3"; fi
 MP=0; MR=0
-for i in $(seq 1 $NP); do
-  S=$(( SEED * 1000 + i ))
-  LOG="$VERIF/.build/parts/miri-plain-$i.log"
-  if ! miri_run "$S" plain "$RANGE" "$LOG"; then
-    RP="$RPD/C18-miri-plain-$S.json"
-    python3 - "$LOG" "$RP" "$S" plain "$RANGE" <<'EOF'
-import json, sys
-json.dump({"engine": "threadsim-miri", "property": "C18", "scenario_seed": int(sys.argv[3]), "mode": sys.argv[4], "miri_seeds": sys.argv[5], "detail": open(sys.argv[1]).read()[-6000:]}, open(sys.argv[2], "w"), indent=1)
-EOF
-    tail -25 "$LOG"; echo "VIOLATION property=C18 replay=$RP"; emit_part 1 $MP $MR 1; exit 1
-  fi
-  MP=$(( MP + W ))
-done
-for i in $(seq 1 $NR); do
-  S=$(( SEED * 1000 + 500 + i ))
-  LOG="$VERIF/.build/parts/miri-rayon-$i.log"
-  if ! miri_run "$S" rayon "$RANGE" "$LOG"; then
-    RP="$RPD/C18-miri-rayon-$S.json"
-    python3 - "$LOG" "$RP" "$S" rayon "$RANGE" <<'EOF'
-import json, sys
-json.dump({"engine": "threadsim-miri", "property": "C18", "scenario_seed": int(sys.argv[3]), "mode": sys.argv[4], "miri_seeds": sys.argv[5], "detail": open(sys.argv[1]).read()[-6000:]}, open(sys.argv[2], "w"), indent=1)
-EOF
-    tail -25 "$LOG"; echo "VIOLATION property=C18 replay=$RP"; emit_part 1 $MP $MR 1; exit 1
-  fi
-  MR=$(( MR + W ))
+for leg in $PLAN; do
+  M="${leg%%:*}"; rest="${leg#*:}"; N="${rest%%:*}"; RANGE="${rest#*:}"
+  W=$(( ${RANGE#*..} - ${RANGE%..*} ))
+  for i in $(seq 1 $N); do
+    case $M in plain) S=$(( SEED * 1000 + i ));; hammer) S=$(( SEED * 1000 + 200 + i ));; *) S=$(( SEED * 1000 + 500 + i ));; esac
+    LOG="$VERIF/.build/parts/miri-$M-$i.log"
+    if ! miri_run "$S" "$M" "$RANGE" "$LOG"; then
+      RP="$RPD/C18-miri-$M-$S.json"
+      python3 -c 'import json,sys; json.dump({"engine": "threadsim-miri", "property": "C18", "scenario_seed": int(sys.argv[3]), "mode": sys.argv[4], "miri_seeds": sys.argv[5], "detail": open(sys.argv[1]).read()[-6000:]}, open(sys.argv[2], "w"), indent=1)' "$LOG" "$RP" "$S" "$M" "$RANGE"
+      grep -E "panicked|observed|Undefined Behavior|Data race|error:" "$LOG" | head -8
+      echo "VIOLATION property=C18 replay=$RP"; emit_part 1 $MP $MR 1; exit 1
+    fi
+    if [ "$M" = rayon ]; then MR=$(( MR + W )); else MP=$(( MP + W )); fi
+  done
 done
 echo "threadsim: guard ok, shuttle ok, Miri: $MP plain-thread runs, $MR rayon-pool runs, no data race / UB reported"
 emit_part 0 $MP $MR 1
